@@ -644,6 +644,28 @@ M("r27-vlo-slack-from-addition-only", ["C18"], "break",
 M("r27-vlo-doubling-benign", ["C18"], "benign",
   [("vlobject.c", "  vlo_length = VLO_LENGTH (*vlo) + additional_length;\n  vlo_length += vlo_length / 2 + 1;", "  vlo_length = VLO_LENGTH (*vlo) + additional_length;\n  vlo_length = 2 * vlo_length + 1;")])
 
+# ---- F37 / F38 and the eighth wave rules ------------------------------------------------------------
+M("r12-revert-F37-publish-before-append", ["C17", "C14"], "break",
+  [("yaep.c", "      tab_term_set_ptr->set = set;\n      tab_term_set_ptr->num = (VLO_LENGTH (term_sets_ptr->tab_term_set_vlo)", "      *entry = (hash_table_entry_t) tab_term_set_ptr;\n      tab_term_set_ptr->set = set;\n      tab_term_set_ptr->num = (VLO_LENGTH (term_sets_ptr->tab_term_set_vlo)")],
+  "term_set_insert/published-after-last-failing-step")
+M("r4h-revert-F38-int-range", ["C12", "C15"], "break",
+  [("yaep.c", "  if (max_code != INT_MAX\n      && ((unsigned int) max_code - (unsigned int) min_code\n\t  < (unsigned int) SYMB_CODE_TRANS_VECT_SIZE))", "  if (max_code - min_code < SYMB_CODE_TRANS_VECT_SIZE)")],
+  "symb_finish_adding_terms/code-difference")
+M("c11-keyword-prefix-compare", ["C11"], "break",
+  [("sgramm.y", "strcmp ((char *) yylval.ref, \"TERM\") == 0", "strncmp ((char *) yylval.ref, \"TERM\", 4) == 0")], "yylex/keyword-compare")
+M("r13-error-node-release-under-setting", ["C13"], "break",
+  [("yaep.c", "      if (!error_node->val.error.used)\n\t{\n\t  parse_free (error_node);\n\t}", "      if (!error_node->val.error.used && grammar->error_recovery_p)\n\t{\n\t  parse_free (error_node);\n\t}")],
+  "release-of-unused-ERROR")
+M("t4-free-tree-null-root-unguarded", ["C13"], "break",
+  [("yaep.c", "  if (root == NULL)\n    {\n      return;\n    }\n  if (parse_free == NULL)", "  if (parse_free == NULL)")], "gets-non-null-root")
+M("c03-nil-stored-past-place-translation", ["C03", "C02"], "break",
+  [("yaep.c", "\t\t  place_translation (anode == NULL\n\t\t\t\t     ? parent_anode->val.anode.children\n\t\t\t\t     + parent_disp\n\t\t\t\t     : anode->val.anode.children + disp,\n\t\t\t\t     empty_node);",
+    "\t\t  if (anode == NULL)\n\t\t    parent_anode->val.anode.children[parent_disp] = empty_node;\n\t\t  else\n\t\t    anode->val.anode.children[disp] = empty_node;")], "direct-slot-store")
+M("r22-nullable-skip-only-at-first-sight", ["C05", "C01"], "break",
+  [("yaep.c", "\t      if (!symb->term_p)\n\t\tfor (rule = symb->u.nonterm.rules;\n\t\t     rule != NULL; rule = rule->lhs_next)\n\t\t  set_new_add_initial_sit (sit_create (rule, 0, 0));\n\t    }\n\t  core_symb_vect_new_add_transition_el (core_symb_vect, i);\n\t  if (symb->empty_p && i >= new_core->n_all_dists)\n\t    set_new_add_initial_sit (sit_create (sit->rule, sit->pos + 1, 0));",
+    "\t      if (!symb->term_p)\n\t\tfor (rule = symb->u.nonterm.rules;\n\t\t     rule != NULL; rule = rule->lhs_next)\n\t\t  set_new_add_initial_sit (sit_create (rule, 0, 0));\n\t      if (symb->empty_p && i >= new_core->n_all_dists)\n\t\tset_new_add_initial_sit (sit_create (sit->rule, sit->pos + 1, 0));\n\t    }\n\t  core_symb_vect_new_add_transition_el (core_symb_vect, i);")],
+  "nullable-skip-class")
+
 # ---- R8 / R2f (C16, C19) ----------------------------------------------------------------------------
 M("r8-revert-F14", ["C19", "C16"], "break", [("hashtab.cpp", "		  entry_ptr = first_deleted_entry_ptr;\n		  *entry_ptr = EMPTY_ENTRY;", "		  entry_ptr = first_deleted_entry_ptr;\n		  *entry_ptr = DELETED_ENTRY;")], "find_hash_table_entry~")
 M("r2f-revert-F15", ["C19", "C16"], "break", [("hashtab.cpp", "  ::operator delete (new_htab);", "  yaep_free (new_htab->alloc, new_htab);")], "expand_hash_table/new")
